@@ -371,7 +371,7 @@ fn eval_plan(o: &mut Outcome, state: &ClusterState, w: &World, world_key: u64, n
         }
     }
     // the relations, on each view of the plan
-    let mut report = |o: &mut Outcome, view: &str, seq: &[(usize, Option<u32>)]| {
+    let report = |o: &mut Outcome, view: &str, seq: &[(usize, Option<u32>)]| {
         let mut bad = model::check(seq, nodes, &req);
         if !bad.is_empty() && req.lwt {
             if let Some(alt) = &f4_alt {
